@@ -181,6 +181,14 @@ impl Sys {
         if disc != exp_disc {
             return Err(Fail::new("disconnections_id", format!("{op:?}: disconnections_id() = {disc:?}, expected {exp_disc:?}")));
         }
+        // the iterator forms list the same ids
+        let mut it: Vec<u64> = self.server.clients_id_iter().collect();
+        it.sort_unstable();
+        let mut dit: Vec<u64> = self.server.disconnections_id_iter().collect();
+        dit.sort_unstable();
+        if it != exp_connected || dit != exp_disc {
+            return Err(Fail::new("clients_id", format!("{op:?}: clients_id_iter() = {it:?} / disconnections_id_iter() = {dit:?}, expected {exp_connected:?} / {exp_disc:?}")));
+        }
         if self.server.connected_clients() != exp_connected.len() || self.server.has_connections() != self.sconn.iter().any(|s| s.is_some()) {
             return Err(Fail::new("server_counts", format!("{op:?}: connected_clients/has_connections disagree with the history")));
         }
